@@ -245,3 +245,63 @@ pub fn shutdown(_seed: u64) -> usize {
     eprintln!("shutdown: {found} reproduced");
     found
 }
+
+/// C16 witness: a client that stalls must not delay another client. One client connects and sends nothing; a second, well-behaved
+/// client connects afterwards and must be served within two seconds (the connection timeout of the listener is 30 s here, so a
+/// client that is only served after the stalled one timed out counts as delayed).
+pub fn stall(_seed: u64) -> usize {
+    let rt = tokio::runtime::Builder::new_multi_thread().worker_threads(2).enable_all().build().expect("rt");
+    let mut found = 0;
+    for proxy in [true, false] {
+        let delayed = rt.block_on(async {
+            let port = std::net::TcpListener::bind("127.0.0.1:0").expect("bind").local_addr().unwrap().port();
+            let address = SocketAddr::from(([127, 0, 0, 1], port));
+            let stop = CancellationToken::new();
+            let token = stop.clone();
+            let server = tokio::spawn(async move {
+                let mut l = Listener::new(
+                    Arc::new(FixedStatusAdapter::default()),
+                    Arc::new(FixedDiscoveryAdapter::new(vec![])),
+                    Arc::new(Vec::<MetaFilterAdapter>::new()),
+                    Arc::new(AnyStrategyAdapter::new()),
+                    Arc::new(FixedAuthenticationAdapter::default()),
+                    Arc::new(FixedLocalizationAdapter::default()),
+                )
+                .with_proxy_protocol(if proxy { Some(ParseConfig { include_tlvs: false, allow_v1: true, allow_v2: true }) } else { None })
+                .with_connection_timeout(Duration::from_secs(30));
+                let _ = l.listen(address, token).await.map_err(|e| e.to_string());
+            });
+            let mut up = false;
+            for _ in 0..300 {
+                if let Ok(mut s) = TcpStream::connect(address).await {
+                    let _ = s.shutdown().await;
+                    up = true;
+                    break;
+                }
+                tokio::time::sleep(Duration::from_millis(10)).await;
+            }
+            if !up {
+                return false;
+            }
+            tokio::time::sleep(Duration::from_millis(50)).await;
+            // the stalling client: connected, sends nothing at all
+            let staller = TcpStream::connect(address).await.ok();
+            tokio::time::sleep(Duration::from_millis(100)).await;
+            let head = if proxy { header(&Conn::V1("203.0.113.7:50000")) } else { vec![] };
+            let served = tokio::time::timeout(Duration::from_secs(2), is_served(address, &head)).await;
+            drop(staller);
+            stop.cancel();
+            let _ = tokio::time::timeout(Duration::from_secs(3), server).await;
+            !matches!(served, Ok(true))
+        });
+        if delayed {
+            println!(
+                "REPRODUCED stall (proxy protocol {}): while one client was connected and silent, a well-behaved client that connected after it was not served within 2 s",
+                if proxy { "on" } else { "off" }
+            );
+            found += 1;
+        }
+    }
+    eprintln!("stall: {found} reproduced");
+    found
+}
